@@ -377,6 +377,25 @@ def run(ctx):
                 r.violate(key, f"{f.key}: after a handler returned Err another handler call is still reachable (the remaining handlers run, and may emit output, before the error is returned)", f.loc())
     r.count("handler_call_sites", n66)
 
+    # ------------------------------------------------------------------ R12.8
+    r = ctx.rule("R12.8", "a token whose handlers failed is not emitted: in DispatcherDelegate::token_produced / text_token_produced the serialisation (into_bytes) is reachable from the handle_token call only through the Ok edge of its `?`", "E-MIR reachability with the Ok edge removed", floor=2)
+    for nm in ("DispatcherDelegate::token_produced", "DispatcherDelegate::text_token_produced"):
+        f = mir.fn(nm)
+        ht = [bi for bi, t in f.calls(r"handle_token$")]
+        ib = [bi for bi, t in f.calls(r"into_bytes")]
+        r.inst(nm, sample={"handle_token": len(ht), "into_bytes": len(ib)})
+        if len(ht) != 1 or len(ib) != 1:
+            r.violate(nm, f"{nm}: expected one handle_token and one into_bytes call", f.loc())
+            continue
+        ok_edges = []
+        for sb, b in enumerate(f.blocks):
+            t = b["term"]
+            if t["k"] == "switch" and "branch[Try](" in f.deep(t["d"]) and "handle_token(" in f.deep(t["d"]) and f.dominates(ht[0], sb):
+                ok_edges += [(sb, x[1]) for x in t["ts"] if x[0] == 0]
+        reach = f.reachable_without_edges(f.blocks[ht[0]]["term"]["t"], removed_blocks=(), removed_edges=ok_edges)
+        if not ok_edges or ib[0] in reach:
+            r.violate(nm, f"{nm} serialises the token on a path on which its handlers returned Err (the `?` on handle_token no longer precedes into_bytes): the failed token's bytes are emitted after the failure point, so the output of a failed run is not a prefix of the complete run", f.loc())
+
     # ------------------------------------------------------------------ R12.7 (shared with C11 R11.1)
     # after an error for which graceful bail-out is off nothing more reaches the sink: no bail-out handler / flush on the false edge
     from .c11 import rule_bail_out_sites
